@@ -19,6 +19,7 @@ import (
 // to MaxInt64, MinInt64, dangling continuation bytes), returns values or an error; it never panics
 // and never returns a string longer than its column.
 func decHostilePhase(r *rng.R, thorough bool) {
+	overlongVarintCases(rng.FromEnv(2021))
 	n := 800
 	if thorough {
 		n = 20000
@@ -72,6 +73,52 @@ func decHostilePhase(r *rng.R, thorough bool) {
 		}
 	}
 }
+
+// overlongVarintCases: a column that STARTS with a byte sequence that is not a 64-bit LEB128 varint
+// (more than ten bytes with the continuation bit, or a tenth byte above 1): every decoder that reads a
+// varint first (integers, string lengths, dictionary references) must report an error for its first
+// value - such a position holds no value, whatever bits a lenient reader could make of it.
+func overlongVarintCases(r *rng.R) {
+	var cols [][]byte
+	for _, n := range []int{10, 11, 12, 16, 20} {
+		c := make([]byte, n)
+		for i := range c {
+			c[i] = 0x80 | byte(r.Intn(128))
+		}
+		cols = append(cols, append(c, byte(r.Intn(2))), append(append([]byte(nil), c...), 0x01, 0x05, 0x68, 0x69))
+	}
+	for _, tenth := range []byte{0x02, 0x7f, 0x03} {
+		c := []byte{0x80, 0x80, 0x80, 0x80, 0x80, 0x80, 0x80, 0x80, 0x80, tenth}
+		cols = append(cols, c, append(append([]byte(nil), c...), 0x02, 0x68, 0x69))
+	}
+	for ci, col := range cols {
+		for _, kind := range []string{"u64", "i64", "str", "dstr", "bytes"} {
+			name := fmt.Sprintf("overlong-%d-%s", ci, kind)
+			note("case %s", name)
+			stats["overlong-varint-cases"]++
+			hostileOuts = hostileOuts[:0]
+			first := ""
+			res, pan, site := runDecoderFirst(kind, col, &first)
+			if pan != "" {
+				propFail("C03 decoder-panic:%s case=%s the %s decoder panicked on a %d-byte column (%s) at %s; column=%s", slugPanic(pan), name, kind, len(col), pan, site, hx(col))
+				continue
+			}
+			note("nontrivial %x", uint64(ci)<<8|uint64(len(kind)))
+			if res != "readfrom-err" && first != "err" {
+				propFail("C20 overlong-varint-decoded-as-data case=%s the %s decoder returned a value (no error) for a column that starts with a byte sequence that is not a 64-bit varint; column=%s", name, kind, hx(col))
+			}
+		}
+	}
+}
+
+// runDecoderFirst: as runDecoder; *first is "err" when the FIRST Decode call returned an error.
+func runDecoderFirst(kind string, col []byte, first *string) (res, pan, site string) {
+	firstProbe = first
+	defer func() { firstProbe = nil }()
+	return runDecoder(kind, col)
+}
+
+var firstProbe *string
 
 var hostileOuts []string
 var opKind = map[string]string{"str": "str", "dstr": "dstr", "u64": "u64", "f64": "f64", "bool": "bool"}
@@ -235,6 +282,12 @@ func runDecoder(kind string, col []byte) (res, pan, site string) {
 	}
 	for i := 0; i < 40; i++ {
 		s, err := reads()
+		if i == 0 && firstProbe != nil {
+			*firstProbe = "ok"
+			if err != nil {
+				*firstProbe = "err"
+			}
+		}
 		if err != nil {
 			return "err", "", ""
 		}
